@@ -69,6 +69,7 @@ class Prov:
         self.prog = prog
         self.max_depth = max_depth
         self._memo = {}
+        self._tmp = {}
         # names of crate-local functions whose result is kept as an opaque ('call', ..) origin
         self.opaque = set(opaque)
         self.ctxs = [None]
@@ -94,15 +95,26 @@ class Prov:
         key = (fn.def_path, e["id"], ctx)
         if key in self._memo:
             return self._memo[key]
+        if key in self._tmp:
+            return self._tmp[key]
         if key in stack or len(stack) > 60:
-            return {(("cycle",), ())}
+            return {(("cycle", key), ())}
         res = self._origins(fn, e, ctx, stack + (key,))
-        if not stack and any(r == ("cycle",) for r, _ in res) and any(r != ("cycle",) for r, _ in res):
-            # least fixpoint: re-entering a key that is being evaluated contributes only what that
-            # key yields anyway (with further projections); the roots are those already present
-            res = {(r, p) for r, p in res if r != ("cycle",)}
-        if not any(r == ("cycle",) for r, _ in res):
+        # least fixpoint: re-entering the key that is being evaluated contributes only what this key
+        # yields anyway (with further projections); its own markers are resolved here
+        if any(r[0] == "cycle" and r[1] == key for r, _ in res):
+            res = {(r, p) for r, p in res if not (r[0] == "cycle" and r[1] == key)}
+            # provisional results computed while this key was in progress may lack its origins
+            for k2 in [k2 for k2, v in self._tmp.items() if any(r[0] == "cycle" and r[1] == key for r, _ in v)]:
+                del self._tmp[k2]
+        if not stack:
+            if any(r[0] == "cycle" for r, _ in res) and any(r[0] != "cycle" for r, _ in res):
+                res = {(r, p) for r, p in res if r[0] != "cycle"}
+            self._tmp.clear()
+        if not any(r[0] == "cycle" for r, _ in res):
             self._memo[key] = res
+        elif stack:
+            self._tmp[key] = res  # depends on a key still in progress: reusable until that key completes
         return res
 
     def _proj(self, s, proj, stack=()):
@@ -119,6 +131,8 @@ class Prov:
                 continue
             if p == () and r[0] == "call" and _is_empty_container_ctor(r[1]):
                 continue  # an empty container has no elements to project from
+            if r[0] == "residual":
+                continue  # the early-exit value of `?` (None / Err) has nothing to project from
             if p == () and proj[0] in WRAP_PROJ:
                 if r[0] == "ctor" and r[1].split("::")[-1] == "None":
                     continue  # infeasible: Some-pattern on a None
